@@ -101,3 +101,49 @@ def c15(tier, seed):
         v.violation(sc, {"outcome": tup[3], "sig": surface_sig(sc)})
     v.samples = scs[:2] + scs[-2:]
     return v.finish()
+
+
+# ---------------------------------------------------------------------------------------------
+# C01 polygon coverage
+# ---------------------------------------------------------------------------------------------
+def generic_indexed(v, t, scs, sigfn):
+    """Common handling of Trace_* output: NT = non-trivial index, BAD = failing record."""
+    for tup in t.tuples("NT"):
+        v.nontrivial.add(tup[1])
+    for tup in t.tuples("BAD"):
+        sc = scs[tup[1] - 1]
+        v.violation(sc, {"detail": tup[3:], "sig": sigfn(sc)})
+
+
+@prop("C01")
+def c01(tier, seed):
+    v = Verdicts("C01", tier, seed)
+    thorough = tier == "thorough"
+    v.rule = ("TLC (Gen_Fill) enumerates every triangle on the 0..N quarter-pixel grid, each in NVAR variants "
+              "(offset pushing it partly/wholly off each side, surface size, rule, AA mode, explicit/implicit close, "
+              "fill or clip route), and samples multi-loop polygons by simulation; the harness driver adds random "
+              "polygons (3-7 vertices, 1-3 loops, tall edges); non-trivial = some pixel partially covered; distinct by scenario")
+    v.trusted = ["harness path construction and pixel projection (harness/src/cov.rs)"]
+    scs = []
+    g, s1 = gen_scenarios("C01", "Gen_Fill", env={"N": 5 if thorough else 4, "NV": 3, "NL": 1, "NVAR": 3 if thorough else 2}, timeout=1200)
+    v.add_tlc(g)
+    scs += s1
+    # quadrilaterals on a coarser grid, exhaustively
+    g, s2 = gen_scenarios("C01", "Gen_Fill", env={"N": 3 if thorough else 2, "NV": 4, "MINV": 4, "NL": 1, "NVAR": 2}, timeout=1200)
+    v.add_tlc(g)
+    scs += s2
+    # sampled: two and three loops of 3..5 vertices on a 0..10 grid
+    g, s3 = gen_scenarios("C01", "Gen_Fill", env={"N": 10, "NV": 5, "NL": 2, "NVAR": 2}, simulate=6000 if thorough else 1500,
+                          depth=14, seed=seed, workers=1)
+    v.add_tlc(g)
+    scs += s3
+    v.exhaustive = True
+    scs += drive("C01", "cov", seed, 20000 if thorough else 3000)
+    tp = execute("C01", "all", scs)
+    t = validate("C01", "Trace_Cov", tp, timeout=3000)
+    v.add_tlc(t)
+    v.evaluations = len(scs)
+    v.traces = len(scs)
+    generic_indexed(v, t, scs, lambda sc: {"fam": "cov"})
+    v.samples = [scs[0], scs[len(scs) // 2], scs[-1]]
+    return v.finish()
